@@ -1,14 +1,85 @@
---------------------------- MODULE MC_ReconCompare ---------------------------
-(* Dump of the enumeration of ReconCompare.tla for the check:                              *)
-(*   VAL  one line per abstract value (base or near miss): key, normal form (M)            *)
-(*   EDGE one line per edit: base value -> near miss                                       *)
-(*   DOC  one line per rendering: value key, tokens, hash events (M), undetected flag      *)
-(*   COR  one line per corrupted rendering                                                 *)
-EXTENDS ReconCompare, Json
-DumpVal == (st = None) => PrintT(<<"VAL", ToJson([key |-> ValueKey(v), nf |-> NormalForm(v), gen |-> gen])>>)
-DumpDoc == (st # None /\ cor = "none") =>
-             PrintT(<<"DOC", ToJson([key |-> ValueKey(v), toks |-> Render(v, st), hev |-> HashEvents(v, st),
-                                     undet |-> Undetected(v, st), dflt |-> (st = Default)])>>)
-DumpCor == (cor # "none") => PrintT(<<"COR", ToJson([key |-> ValueKey(v), toks |-> Render(v, st), cor |-> cor])>>)
-EdgeDump == (gen = 0 /\ gen' = 1) => PrintT(<<"EDGE", ToJson([s |-> ValueKey(v), t |-> ValueKey(v')])>>)
+---------------------------- MODULE MC_ReconCompare ----------------------------
+(***************************************************************************)
+(* P for C15: the laws of the statement, evaluated by TLC over the pair    *)
+(* table OBSERVED on the real swimos_recon (compare_recon_values,          *)
+(* recon_hash, parse_recognize::<Value> + Value::eq), together with the    *)
+(* verdict of the mechanism model M of ReconCompare.tla (normal forms and  *)
+(* hash events, interned to numbers by the check) on the same pair.        *)
+(*                                                                         *)
+(* TABLE (json):                                                           *)
+(*   valid[i]  1 / 0   text i parses as a Value                            *)
+(*   hash[i]   class number of recon_hash(text i)   (0 = the hasher panicked) *)
+(*   mvalid[i], mnf[i], mcf[i], mhev[i]   M: expected validity, normal form class, coarse form class, hash event class *)
+(*   rows[r] = <<a, b, cmp, veq>>   cmp = compare_recon_values(a, b) (1/0, 9 = panic)        *)
+(*                                  veq = parse(a) == parse(b) (1/0, 2 = not both valid)     *)
+(*   chunk    rows are evaluated in chunks of this many (one initial state per chunk)        *)
+(* Two texts are the same string iff a = b (texts are deduplicated).       *)
+(***************************************************************************)
+EXTENDS Integers, Sequences, TLC, Json, IOUtils
+
+T == ndJsonDeserialize(IOEnv.TABLE)[1]
+NR == Len(T.rows)
+Chunks == 0..((NR - 1) \div T.chunk)
+RowsOf(c) == (c * T.chunk + 1)..(IF (c + 1) * T.chunk < NR THEN (c + 1) * T.chunk ELSE NR)
+
+A(r) == T.rows[r][1]
+B(r) == T.rows[r][2]
+Cmp(r) == T.rows[r][3]
+Veq(r) == T.rows[r][4]
+BothValid(r) == T.valid[A(r)] = 1 /\ T.valid[B(r)] = 1
+HashEq(r) == T.hash[A(r)] = T.hash[B(r)]
+\* M
+MBothValid(r) == T.mvalid[A(r)] = 1 /\ T.mvalid[B(r)] = 1
+MVeq(r) == IF MBothValid(r) THEN (IF T.mnf[A(r)] = T.mnf[B(r)] THEN 1 ELSE 0) ELSE 2
+MCmp(r) == IF MBothValid(r) THEN (IF T.mcf[A(r)] = T.mcf[B(r)] THEN 1 ELSE 0) ELSE (IF A(r) = B(r) THEN 1 ELSE 0)
+MHashEq(r) == T.mhev[A(r)] = T.mhev[B(r)]
+
+-----------------------------------------------------------------------------
+(* the laws, over (valid_a_and_b, cmp, veq, hasheq, same_string) *)
+
+\* "Two valid Recon strings compare equal, without being deserialised, exactly when they parse to equal values"
+\*   => keys that differ only in formatting are one key
+EqualValuesCompareEqual(bv, cmp, veq) == (bv /\ veq = 1) => cmp = 1
+\*   => distinct keys are never merged
+DistinctValuesCompareUnequal(bv, cmp, veq) == (bv /\ veq = 0) => cmp = 0
+\* "strings that compare equal produce the same hash"
+CompareEqualImpliesHashEqual(cmp, heq) == (cmp = 1) => heq
+\* "for strings that are not valid Recon the comparison is plain string equality"
+InvalidIsStringEquality(bv, cmp, same) == (~bv) => ((cmp = 1) <=> same)
+\* a panic is no answer
+NoPanic(cmp, ha, hb) == cmp \in {0, 1} /\ ha # 0 /\ hb # 0
+
+VARIABLES law, row, ok, mok
+vars == <<law, row, ok, mok>>
+\* one initial state per chunk of rows: `row` holds the chunk number until a law instance is evaluated
+Init == law = "init" /\ row \in Chunks /\ ok = TRUE /\ mok = TRUE
+Fresh == law = "init"
+Eval(l, r, o, m) == law' = l /\ row' = r /\ ok' = o /\ mok' = m
+
+EvalEqualValuesCompareEqual == Fresh /\ \E r \in RowsOf(row) :
+    /\ BothValid(r) /\ Veq(r) = 1
+    /\ Eval("EqualValuesCompareEqual", r, EqualValuesCompareEqual(TRUE, Cmp(r), Veq(r)), EqualValuesCompareEqual(MBothValid(r), MCmp(r), MVeq(r)))
+EvalDistinctValuesCompareUnequal == Fresh /\ \E r \in RowsOf(row) :
+    /\ BothValid(r) /\ Veq(r) = 0
+    /\ Eval("DistinctValuesCompareUnequal", r, DistinctValuesCompareUnequal(TRUE, Cmp(r), Veq(r)), DistinctValuesCompareUnequal(MBothValid(r), MCmp(r), MVeq(r)))
+EvalCompareEqualImpliesHashEqual == Fresh /\ \E r \in RowsOf(row) :
+    /\ Cmp(r) = 1
+    /\ Eval("CompareEqualImpliesHashEqual", r, CompareEqualImpliesHashEqual(Cmp(r), HashEq(r)), CompareEqualImpliesHashEqual(MCmp(r), MHashEq(r)))
+EvalInvalidIsStringEquality == Fresh /\ \E r \in RowsOf(row) :
+    /\ ~BothValid(r)
+    /\ Eval("InvalidIsStringEquality", r, InvalidIsStringEquality(FALSE, Cmp(r), A(r) = B(r)), InvalidIsStringEquality(MBothValid(r), MCmp(r), A(r) = B(r)))
+EvalNoPanic == Fresh /\ \E r \in RowsOf(row) :
+    Eval("NoPanic", r, NoPanic(Cmp(r), T.hash[A(r)], T.hash[B(r)]), TRUE)
+\* binding of M to the code (a difference is MODEL-DRIFT, never an alarm)
+EvalConform == Fresh /\ \E r \in RowsOf(row) :
+    Eval("Conform", r, TRUE, /\ T.valid[A(r)] = T.mvalid[A(r)] /\ T.valid[B(r)] = T.mvalid[B(r)]
+                             /\ Cmp(r) = MCmp(r) /\ Veq(r) = MVeq(r) /\ (HashEq(r) <=> MHashEq(r)))
+
+Next == \/ EvalEqualValuesCompareEqual \/ EvalDistinctValuesCompareUnequal \/ EvalCompareEqualImpliesHashEqual
+        \/ EvalInvalidIsStringEquality \/ EvalNoPanic \/ EvalConform
+
+\* INVARIANT: always TRUE; prints the law instances the real code breaks and the rows where M differs from the code
+Report == /\ ok \/ PrintT(<<"FAIL", ToJson([law |-> law, row |-> row, m |-> mok])>>)
+          /\ (law = "Conform" /\ ~mok) => PrintT(<<"DRIFT", ToJson([row |-> row, cmp |-> MCmp(row), veq |-> MVeq(row), heq |-> MHashEq(row)])>>)
+          /\ (law \notin {"Conform", "init"} /\ ok /\ ~mok) => PrintT(<<"MONLY", ToJson([law |-> law, row |-> row])>>)
 =============================================================================
